@@ -4,27 +4,29 @@ import Mathlib.Tactic.FieldSimp
 import Mathlib.Tactic.Linarith
 /-! Lemmas for C16 (e), (f): horizontal alignment arithmetic and line stacking over an ordered field. -/
 set_option linter.unusedSectionVars false
+set_option linter.unusedSimpArgs false
 namespace Canvas.C16
 variable {K : Type} [Field K] [LinearOrder K] [IsStrictOrderedRing K]
 
-/-- the indent that is part of the breakpoint width of the first line -/
+/-- where the spans of a line start before the alignment shift: the indent on the first line -/
 def ind (indent : K) (first : Bool) : K := if first then indent else 0
 
-theorem lineX0_left (width W indent : K) (first : Bool) :
-    lineX0 HAlign.left width W indent first = ind indent first := by
+theorem lineX0_left (width tw indent : K) (first : Bool) :
+    lineX0 HAlign.left width tw indent first = ind indent first := by
   cases first <;> simp [lineX0, ind]
 
-theorem lineX0_justify (width W indent : K) (first : Bool) :
-    lineX0 HAlign.justify width W indent first = ind indent first := by
+theorem lineX0_justify (width tw indent : K) (first : Bool) :
+    lineX0 HAlign.justify width tw indent first = ind indent first := by
   cases first <;> simp [lineX0, ind]
 
-/-- the spans of a line are `W - indent` wide in total (W counts the indent box on the first line) -/
-theorem lineX0_right (width W indent : K) (first : Bool) :
-    lineX0 HAlign.right width W indent first + (W - ind indent first) = width := by
-  cases first <;> simp [lineX0, ind]
+/-- a right-aligned line ends at the width, whatever the shown width `tw` is -/
+theorem lineX0_right (width tw indent : K) (first : Bool) :
+    lineX0 HAlign.right width tw indent first + tw = width := by
+  cases first <;> simp only [lineX0, if_true, if_false, Bool.false_eq_true] <;> ring
 
-theorem lineX0_center (width W indent : K) (first : Bool) :
-    (lineX0 HAlign.center width W indent first + (lineX0 HAlign.center width W indent first + (W - ind indent first))) / 2
+/-- a centred line is centred in `[indent, width]` (first line) resp. `[0, width]` -/
+theorem lineX0_center (width tw indent : K) (first : Bool) :
+    (lineX0 HAlign.center width tw indent first + (lineX0 HAlign.center width tw indent first + tw)) / 2
       = (ind indent first + width) / 2 := by
   cases first <;> simp only [lineX0, ind, if_true, if_false, Bool.false_eq_true] <;> ring
 
